@@ -32,13 +32,17 @@ def one_image(rec, rnd, deep, override=None):
     if fmt not in SIZED:
         known_at = n
     out = []
-    for sched in ri.schedules(n, bounds + [rec['carrier']], rnd, deep):
+    scheds_ = ri.schedules(n, bounds + [rec['carrier']], rnd, deep)
+    for si, sched in enumerate(scheds_ + [scheds_[min(1, len(scheds_) - 1)]]):
+        as_view = si == len(scheds_)             # once more, as memoryviews of one reused buffer
         ev = []
 
         def cb(i, k, pos, inspector, obs, err):
             if fmt in SIZED and err is None:
                 ev.append({'pos': pos, 'vs': str(insp.safe(lambda: inspector.virtual_size))})
-        r = insp.run(fi.ALL_FORMATS[fmt], data, sched, observe=cb)
+        r = insp.run(fi.ALL_FORMATS[fmt], data, sched, observe=cb, as_view=as_view)
+        if as_view:
+            sched = {'memoryview_chunks_of': ri.describe(sched)}
         problems = []
         final = r['verdict'][3] if r['err'] is None else None
         if r['err'] is None:
